@@ -364,6 +364,9 @@ def coq(e, env):
         raise KeyError("operator %s" % op)
     if k == "call":
         name, recv, args = e[1], e[2], e[3]
+        rp = path_of(recv)
+        if not args and rp is not None and (rp + "." + name + "()") in env.paths:
+            return env.paths[rp + "." + name + "()"]
         R = coq(recv, env)
         A = [coq(x, env) for x in args]
         w = env.width
